@@ -714,9 +714,11 @@ fn run_inner<F: Fl>(h: &ObsHistory) -> Result<OFacts, Div> {
     let mut f = OFacts::default();
     let (max_subs, max_owners, max_weaks) = if h.many > 0 { (h.many, h.many, h.many) } else { (5, 4, 3) };
     macro_rules! bail {
-        ($tag:expr, $($arg:tt)*) => {
-            return Err(Div { prop: tag(a, $tag), what: format!($($arg)*) })
-        };
+        ($tag:expr, $($arg:tt)*) => {{
+            let what = format!($($arg)*);
+            crate::common::note_divergence(tag(a, $tag), &what);
+            return Err(Div { prop: tag(a, $tag), what });
+        }};
     }
 
     for (step, op) in h.ops.iter().enumerate() {
@@ -1062,7 +1064,8 @@ fn run_inner<F: Fl>(h: &ObsHistory) -> Result<OFacts, Div> {
                     let ok = up.is_some();
                     let expect = !w.owners.is_empty();
                     if ok != expect {
-                        drop(up);
+                        // a handle that should not exist: do not run its destructor (it may free what others own)
+                        std::mem::forget(up);
                         bail!("C03", "step {step} upgrade: is_some = {ok}, but {} owner(s) exist", w.owners.len());
                     }
                     if let Some(s) = up {
